@@ -40,7 +40,7 @@ def dispatch (op : String) (args : List String) : String :=
   | "views" => Views.handle args
   | "imgaxes" | "imggrid" | "imgedge" => Img.handle op args
   | "feat" => Feat.handle args
-  | "gdsu" | "gtrav" | "gsort" | "ggetdsu" => AlgoRun.handle op args
+  | "gdsu" | "gtrav" | "gsort" | "ggetdsu" | "glazy" | "gchain" | "gsubtopo" => AlgoRun.handle op args
   | "swcline" => SwcText.handleLine args
   | "swcread" => SwcText.handleRead args
   | "swcwrite" => SwcText.handleWrite args
